@@ -74,7 +74,19 @@ impl Drop for CToken {
     }
 }
 
-#[unimock(api=TokMock)]
+/// Real implementations (partial mocks fall through to them for UNMATCHED calls only; a matched
+/// call whose single-use value is used up must still be refused).
+pub fn real_take(_: &impl std::any::Any, _x: u8) -> Token {
+    Token::new(&Arc::new(Reg::default()))
+}
+pub fn real_take_opt(_: &impl std::any::Any, _x: u8) -> Option<Token> {
+    Some(Token::new(&Arc::new(Reg::default())))
+}
+pub fn real_dup(_: &impl std::any::Any, _x: u8) -> CToken {
+    CToken::new(&Arc::new(Reg::default()))
+}
+
+#[unimock(api=TokMock, unmock_with=[real_take, real_take_opt, _, _, _, _, real_dup, _, _, _, _, _, _])]
 pub trait Tok {
     fn take(&self, x: u8) -> Token;
     fn take_opt(&self, x: u8) -> Option<Token>;
@@ -139,6 +151,9 @@ pub struct LinearCase {
     pub order: Vec<u8>,
     /// requests go through clones of the mock as well
     pub clones: u8,
+    /// the mock is a partial mock (three of the methods have real implementations registered)
+    #[serde(default)]
+    pub partial: bool,
 }
 
 struct Configured {
@@ -342,7 +357,8 @@ fn check_inner(case: &LinearCase, insts: &mut Vec<Unimock>) -> Result<CaseInfo, 
     for (i, item) in case.items.iter().enumerate() {
         configured.push(configure(&mut dc, &reg, i as u8, item));
     }
-    let original = catch(move || Unimock::new(dc)).map_err(|e| format!("construction panicked: {e}"))?;
+    let partial = case.partial;
+    let original = catch(move || if partial { Unimock::new_partial(dc) } else { Unimock::new(dc) }).map_err(|e| format!("construction panicked: {e}"))?;
     insts.push(original);
     for _ in 0..case.clones {
         let c = insts[0].clone();
@@ -494,7 +510,8 @@ fn check_inner(case: &LinearCase, insts: &mut Vec<Unimock>) -> Result<CaseInfo, 
         .class_if(nested, "owned-leaf-two-or-more-levels-down")
         .class_if(case.items.iter().any(|i| i.requests == 0), "never-requested-value")
         .class_if(case.items.iter().any(|i| i.ordered), "next_call-entry")
-        .class_if(case.clones > 0, "requests-through-clones"))
+        .class_if(case.clones > 0, "requests-through-clones")
+        .class_if(case.partial, "partial-mock(real-implementations-registered)"))
 }
 
 fn shape_strategy() -> impl Strategy<Value = Shape> {
@@ -527,7 +544,7 @@ fn item_strategy() -> impl Strategy<Value = Item> {
 }
 
 pub fn case_strategy() -> impl Strategy<Value = LinearCase> {
-    (vec(item_strategy(), 1..=6), vec(any::<u8>(), 24), 0..=2u8).prop_map(|(mut items, order, clones)| {
+    (vec(item_strategy(), 1..=6), vec(any::<u8>(), 24), 0..=2u8, proptest::bool::weighted(0.35)).prop_map(|(mut items, order, clones, partial)| {
         // one mode per method: the first item of a method decides whether it is ordered
         let method = |s: Shape| match s {
             Shape::Take => 0,
@@ -561,7 +578,7 @@ pub fn case_strategy() -> impl Strategy<Value = LinearCase> {
                 }
             }
         }
-        LinearCase { items, order, clones }
+        LinearCase { items, order, clones, partial }
     })
 }
 
@@ -779,11 +796,18 @@ pub fn grid() -> Vec<LinearCase> {
             for once in [false, true] {
                 for requests in 0..=3u8 {
                     for early in [false, true] {
-                        v.push(LinearCase {
-                            items: vec![Item { shape, ordered, once, requests, drop_delivered_early: early }],
-                            order: vec![],
-                            clones: requests % 2,
-                        });
+                        for partial in [false, true] {
+                            // partial mocks only differ where a real implementation is registered
+                            if partial && !matches!(shape, Shape::Take | Shape::TakeOptSome | Shape::DupSingle | Shape::DupNTimes(_) | Shape::DupEach) {
+                                continue;
+                            }
+                            v.push(LinearCase {
+                                items: vec![Item { shape, ordered, once, requests, drop_delivered_early: early }],
+                                order: vec![],
+                                clones: requests % 2,
+                                partial,
+                            });
+                        }
                     }
                 }
             }
@@ -792,7 +816,7 @@ pub fn grid() -> Vec<LinearCase> {
     v
 }
 
-pub const RULE: &str = "histories = 1-6 configured return values (non-Clone drop-counting tokens alone, inside Option / Poll, as owned leaves of mixed tuples (Token,&T) / (&T,Token,Token) and as the owned Err of Result<&T,Token>, and two or three levels down in Option<Result<&T,Token>>, Poll<Result<..>>, Poll<Option<Result<..>>>, Vec<Result<&T,Token>>, (Option<Result<&T,Token>>,&T); Clone tokens through the single-use path, n_times(n), each_call, and as leaf of a mixed tuple), some_call or next_call entry, unquantified or once(), each requested 0-4 times in a generated interleaving through the original and clones, delivered values dropped early or kept past teardown; grid = every shape x entry x quantifier x 0..3 requests enumerated; racing = all schedules of 2-3 threads requesting one single-use value (see C10 engine). Non-trivial = some value requested more than once or an owned leaf inside a mixed composite; distinct = distinct case";
+pub const RULE: &str = "histories = 1-6 configured return values (non-Clone drop-counting tokens alone, inside Option / Poll, as owned leaves of mixed tuples (Token,&T) / (&T,Token,Token) and as the owned Err of Result<&T,Token>, and two or three levels down in Option<Result<&T,Token>>, Poll<Result<..>>, Poll<Option<Result<..>>>, Vec<Result<&T,Token>>, (Option<Result<&T,Token>>,&T); Clone tokens through the single-use path, n_times(n), each_call, and as leaf of a mixed tuple), some_call or next_call entry, unquantified or once(), each requested 0-4 times in a generated interleaving through the original and clones, on strict and partial mocks (three of the methods have real implementations: a matched request for a used-up value must still be refused), delivered values dropped early or kept past teardown; grid = every shape x entry x quantifier x 0..3 requests enumerated; racing = all schedules of 2-3 threads requesting one single-use value (see C10 engine). Non-trivial = some value requested more than once or an owned leaf inside a mixed composite; distinct = distinct case";
 
 pub fn run(ctx: &Ctx) -> Verdict {
     let mut v = Verdict::new("exploration", RULE);
